@@ -164,6 +164,7 @@ def run(ctx):
   _c12.assumes_sorted_in(ctx, ('apply_sustain_control_changes',))
   pedal_state_always_recorded(ctx, fi)
   total_time_never_lowered(ctx, fi)
+  pedal_selected_by_controller_only(ctx, fi)
   rank_in_sort_key(ctx, fi)       # location-independent rules first
   note_off_removes_one(ctx, fi)
   threshold_scenarios(ctx, fi, 'THRESHOLD/scenarios')
@@ -275,6 +276,38 @@ def pedal_state_always_recorded(ctx, fi, rule='BRANCH/pedal-state-always-recorde
   if n == 0:
     why = 'cannot classify: no store of a constant pedal state (flags[...] = True / False) found in the event loop'
     ctx.ob(rule, fi, fn, False, why, construct='pedal state stores are reached by every pedal event', unknown=why)
+
+
+def pedal_selected_by_controller_only(ctx, fi, rule='FILTER/pedal-by-controller-only'):
+  """"its own instrument's pedal (control 64, value >= 64)": which control changes are pedal events is decided by the controller
+  number (and which way by the value) - never by the `is_drum` or `program` of the control change.  A note is a drum note by its own
+  `is_drum`; a pedal event carrying `is_drum` on the same instrument as a non-drum note still is that instrument's pedal.  Every
+  variable that iterates `<sequence>.control_changes` is followed; a read of its `is_drum` / `program` inside a condition (if, while,
+  conditional expression, comprehension filter) is the violation."""
+  fn = fi.node
+  def over_ccs(it):
+    it = U.expand_locals(fn, it) if isinstance(it, ast.Name) else it
+    return any(isinstance(a, ast.Attribute) and a.attr == 'control_changes' for a in ast.walk(it))
+  names = {}
+  for x in ast.walk(fn):
+    if isinstance(x, (ast.For, ast.comprehension)) and isinstance(x.target, ast.Name) and over_ccs(x.iter):
+      names[x.target.id] = x
+  tests = []
+  for x in ast.walk(fn):
+    if isinstance(x, (ast.If, ast.While, ast.IfExp)):
+      tests.append(x.test)
+    elif isinstance(x, ast.comprehension):
+      tests.extend(x.ifs)
+  bad = [a for t in tests for a in ast.walk(t) if isinstance(a, ast.Attribute) and a.attr in ('is_drum', 'program') and isinstance(a.value, ast.Name) and a.value.id in names]
+  cons = 'pedal events are selected by controller number and value only'
+  if not names:
+    why = 'cannot classify: no loop or comprehension over <sequence>.control_changes with a plain loop variable'
+    ctx.ob(rule, fi, fn, False, why, construct=cons, unknown=why)
+    return
+  ctx.ob(rule, fi, bad[0] if bad else fn, not bad, 'no condition reads is_drum / program of a control change (%d traversal(s) of control_changes followed)' % len(names) if not bad else
+         'the condition at line %d reads `%s`: whether a control change is a pedal event then depends on a field other than its controller number and value, so the pedal of an '
+         'instrument whose control changes carry that field is ignored (or taken) and the non-drum notes of that instrument are not held (or held) as stated' % (bad[0].lineno, norm_text(bad[0])),
+         construct=cons, definite=True)
 
 
 def rank_in_sort_key(ctx, fi):
